@@ -1,4 +1,44 @@
-import Blf.FileSeq
-/-! # C08 (theorems under construction; the executable model `Blf.FileSeq` is tied to the code by the `file` protocol) -/
+import Blf.TruncRound
+/-!
+# C08 — A file cut off at any byte reads as an unmodified prefix of its objects
+
+Proved at the level of the uncompressed stream, for every cut position (not a sample of offsets):
+
+* `C08_stream_prefix`: the object parser on the first `m` bytes of a stream of encoded objects delivers exactly the objects
+  whose fields lie completely inside those `m` bytes — unmodified (every field of the layout), in order —, delivers nothing
+  for the object the cut falls into, and ends with the null result (no outcome set: no hang, no undefined access);
+* `C08_monotone`: a longer prefix never yields fewer objects;
+* `C08_cut_object_dropped`: the single step behind it — the stream ends inside the fields of an object: the decoder comes
+  back short, the stream is not good, the parser's loop ends.
+
+Because log containers are all-or-nothing for the reader, what the parser sees of a truncated *file* is always such a prefix of
+the stream (the payloads of the completely stored containers).  That last step — the inflater stops at the first incompletely
+stored container without handing anything of it to the stream, for every cut inside a container or inside the 144-byte
+statistics block — is covered by `C10_read_session_ends_without_ub` (ends, no undefined behaviour) and otherwise validated
+dynamically (every truncation offset of written files, both header variants), not proved here.
+-/
 namespace Blf.Props
+open Blf Blf.FileSeq Blf.FileRound Blf.TruncRound
+
+theorem C08_stream_prefix (cap : Nat) (L : List (Codec × Layout × Obj))
+    (hL : ∀ x ∈ L, Parsable cap x.1 x.2.1 x.2.2 ∧ ArrOK x.1.fresh x.2.1.items) (m : Nat) :
+    ∃ ds, (objectLoop cap (4 * ((flat cap L).take m).length + 64 + L.length)
+        { st := { obj := statsDefault, inp := (flat cap L).take m } }).objs = ds.reverse ∧
+      AllDelivered (L.take (jOf cap L m)) ds ∧
+      (objectLoop cap (4 * ((flat cap L).take m).length + 64 + L.length)
+        { st := { obj := statsDefault, inp := (flat cap L).take m } }).outcome = none := by
+  obtain ⟨ds, d1, d2, d3⟩ := parse_prefix cap L hL m ((flat cap L).take m)
+    { st := { obj := statsDefault, inp := (flat cap L).take m } } (4 * ((flat cap L).take m).length + 64 + L.length)
+    ⟨⟨rfl, rfl, Nat.zero_le _, rfl⟩, rfl, rfl⟩ (by simp) (by omega)
+  exact ⟨ds, by rw [d1]; simp, d2, d3⟩
+
+theorem C08_monotone (cap : Nat) (L : List (Codec × Layout × Obj)) (m m' : Nat) (h : m ≤ m') :
+    jOf cap L m ≤ jOf cap L m' := jOf_mono cap L m m' h
+
+theorem C08_cut_object_dropped (cap : Nat) (c : Codec) (lay : Layout) (o : Obj) (hp : Parsable cap c lay o)
+    (harr : ArrOK c.fresh lay.items) (B : Bytes) (ps : PState) (hi : PInv B ps) (m : Nat)
+    (hmb : m < 4 + (encItems (pre c lay o) lay.body).length)
+    (hin : B.drop ps.st.pos = (enc cap c o).take m) : objectStep cap ps = none :=
+  objectStep_cut cap c lay o hp harr B ps hi m hmb hin
+
 end Blf.Props
